@@ -598,6 +598,12 @@ class PrecipitateModel (PrecipitateBase):
                 growthRate = self.growth[p] if hasattr(self, 'growth') else np.zeros(self.PBM[p].bins + 1)
                 xEqAlpha = self.pData.xEqAlpha[self.pData.n,p]
                 xEqBeta = self.pData.xEqBeta[self.pData.n,p]
+                #No interfacial compositions either if no calculation has succeeded yet, the mass balance needs them once nuclei exist
+                #    Take the matrix composition and the precipitate composition of the driving force calculation for all size classes
+                if self.PSDXbeta[p] is None:
+                    xPrec = np.zeros(self.numberOfElements) if self._precBetaTemp[p] is None else np.atleast_1d(self._precBetaTemp[p])
+                    self.PSDXalpha[p] = np.tile(np.atleast_1d(xComp), (self.PBM[p].bins + 1, 1))
+                    self.PSDXbeta[p] = np.tile(xPrec, (self.PBM[p].bins + 1, 1))
         else:
             growth, xAlpha, xBeta, xEqAlpha, xEqBeta = growth_result
             #Update interfacial composition for each precipitate size
